@@ -17,6 +17,7 @@ import (
 	"regexp"
 	"runtime"
 	"sort"
+	"strconv"
 	"strings"
 	"sync"
 	"syscall"
@@ -275,6 +276,9 @@ func worker() {
 	}
 	if workers < 4 {
 		workers = 4
+	}
+	if v, err := strconv.Atoi(os.Getenv("C11_WORKERS")); err == nil && v > 0 {
+		workers = v
 	}
 	ch := make(chan *Scenario, 256)
 	var wg sync.WaitGroup
